@@ -137,6 +137,15 @@ func runE1(spec RunSpec, ch *Choices) *RunResult {
 	}
 
 	x.checkEnd(connAlive, faultFree)
+	if x.spec.Prop == "C18" {
+		x.checkOldReader()
+		for _, c := range x.ctl {
+			res.fault("unknown-control-packet", c.Inject)
+		}
+	}
+	if x.spec.Prop == "C13" {
+		x.checkByz()
+	}
 
 	// phase 4: teardown and leak census
 	x.phase = "q4"
